@@ -3,6 +3,9 @@ from cfg import Inconclusive, Poly, op_place, poly_of, show, walk, strip_casts
 from common import (calls_to, callee, callee_names, field_chain, fn_of, get_fn, head_sources, peel, site,
                     guards_of, ret_aggregates, uses_of_local, is_diverging, field_assigns, field_borrows)
 
+from common import relation_raw
+from cfg import decision_paths, poly_of, Poly
+
 PROP = "C10"
 LEVEL = "other"
 UNDECIDED = [
@@ -20,11 +23,10 @@ ALLOC = "matrix::MatrixSlab::alloc"
 
 
 def atom_hn(e):
+    """Atoms of the layout constructor: its two length parameters, by position (never by name)."""
     e = strip_casts(e)
-    if e[0] == "arg" and e[2] in ("haystack_len", "needle_len"):
-        return {"haystack_len": "h", "needle_len": "n"}[e[2]]
-    if e[0] == "field" and e[2] in ("haystack_len", "needle_len"):
-        return {"haystack_len": "h", "needle_len": "n"}[e[2]]
+    if e[0] == "arg" and e[1] in (1, 2):
+        return {1: "h", 2: "n"}[e[1]]
     return None
 
 
@@ -37,6 +39,30 @@ def rule_view_extents(ctx):
     if len(lit) != 1:
         raise Inconclusive("MatrixLayout::new: struct literal not found")
     names = lit[0]["rv"]["fields"]
+    # every scalar field of the layout struct as a polynomial of the constructor's parameters: the view side may
+    # use any of them (haystack_len, needle_len, a cached row width, ...)
+    field_poly = {}
+    for i, nm in enumerate(names):
+        pe = poly_of(new.expr_of_operand(lit[0]["rv"]["ops"][i]), atom_hn)
+        if not pe.has_opaque():
+            field_poly[nm] = pe
+
+    def atom_view(e):
+        e = strip_casts(e)
+        if e[0] == "field" and e[2] in field_poly and peel(e[1])[0] == "arg" and peel(e[1])[1] == 1:
+            return "F:" + e[2]
+        return None
+
+    def view_poly(e):
+        pv = poly_of(e, atom_view)
+        # substitute the field polynomials
+        out = Poly.const(0)
+        for mon, coef in pv.t.items():
+            term = Poly.const(coef)
+            for a_ in mon:
+                term = term * (field_poly[a_[2:]] if a_.startswith("F:") else Poly.atom(a_))
+            out = out + term
+        return out
     layout_of = {}
     for i, nm in enumerate(names):
         if not nm.endswith("_off"):
@@ -60,7 +86,7 @@ def rule_view_extents(ctx):
     views = []
     for bi, t in ffp.calls(lambda t: callee(t).endswith("slice_from_raw_parts_mut")):
         ptr = ffp.expr_of_operand(t["args"][0])
-        n = poly_of(ffp.expr_of_operand(t["args"][1]), atom_hn)
+        n = view_poly(ffp.expr_of_operand(t["args"][1]))
         off = None
         for x in walk(ptr):
             if x[0] == "call" and str(x[1]).endswith("::add"):
@@ -100,41 +126,71 @@ def rule_slab_guards(ctx):
     if len(carve) != 1:
         raise Inconclusive("MatrixSlab::alloc: expected one fieds_from_ptr call")
     cb, ct = carve[0]
-    gs = guards_of(fn, cb)
     consts = {p: facts.const(M, p)["value"] for p in ("matrix::MAX_MATRIX_SIZE", "matrix::MAX_NEEDLE_LEN", "matrix::MAX_HAYSTACK_LEN")}
-    found = {"cells": False, "haystack": False, "needle": False, "layout": False}
-    for g in gs:
-        e = g[3]
-        if not (e[0] == "bin" and e[1] in ("Gt", "Ge") and g[2] == [0]):
-            continue
-        a, b = strip_casts(e[2]), strip_casts(e[3])
-        sa = show(a)
-        if b[0] == "const" and b[2] == "matrix::MAX_MATRIX_SIZE" and a[0] in ("bin", "checked") and a[1] == "Mul" and "needle_len" in sa and "len(" in sa:
-            found["cells"] = True
-        if b[0] == "const" and b[1] == 65535 and a[0] == "call" and str(a[1]).endswith("[T]>::len"):
-            found["haystack"] = True
-        if b[0] == "const" and b[2] == "matrix::MAX_NEEDLE_LEN" and a[0] == "arg" and a[2] == "needle_len":
-            found["needle"] = True
-        if a[0] == "call" and str(a[1]).endswith("Layout::size") and b[0] == "call" and str(b[1]).endswith("size_of"):
-            tb = fn.blocks[b[4][0]]["term"]
-            if "MatcherData" in tb.get("fn_args", ""):
-                found["layout"] = True
+    # roles (not names): H = len of the slice parameter, N = the usize parameter
+    slice_args = [l for l in range(1, fn.arg_count + 1) if fn.b["locals"][l]["ty"].startswith("&[")]
+    usize_args = [l for l in range(1, fn.arg_count + 1) if fn.b["locals"][l]["ty"] == "usize"]
+    if len(slice_args) != 1 or len(usize_args) != 1:
+        raise Inconclusive("MatrixSlab::alloc: expected one slice and one usize parameter")
+    SL, NL = slice_args[0], usize_args[0]
+
+    def base_arg(x):
+        x = peel(x)
+        while x[0] in ("ref", "deref", "cast"):
+            x = peel(x[2] if x[0] == "cast" else x[1])
+        return x
+
+    def atomizer(x):
+        x = strip_casts(x)
+        if x[0] == "call" and str(x[1]).endswith("[T]>::len") and base_arg(x[2][0])[:2] == ("arg", SL):
+            return "H"
+        if x[0] == "arg" and x[1] == NL:
+            return "N"
+        if x[0] == "call" and str(x[1]).endswith("Layout::size"):
+            return "LAYOUT_SIZE"
+        if x[0] == "call" and str(x[1]).endswith("size_of"):
+            return "SLAB_SIZE" if "MatcherData" in str(fn.blocks[x[4][0]]["term"].get("fn_args", "")) else "?size_of"
+        return None
+
+    H, N = Poly.atom("H"), Poly.atom("N")
+    need = {"cells": (H * N, Poly.const(consts["matrix::MAX_MATRIX_SIZE"])), "haystack": (H, Poly.const(65535)),
+            "needle": (N, Poly.const(consts["matrix::MAX_NEEDLE_LEN"])), "layout": (Poly.atom("LAYOUT_SIZE"), Poly.atom("SLAB_SIZE"))}
     why = {"cells": "haystack_len × needle_len ≤ MAX_MATRIX_SIZE", "haystack": "haystack_len ≤ u16::MAX (column indices are u16)",
            "needle": "needle_len ≤ MAX_NEEDLE_LEN (keeps DP scores below u16::MAX)", "layout": "layout.size() ≤ size_of::<MatcherData>() (the slab)"}
-    for k, v in found.items():
-        if v:
-            ctx.ok(site(fn, cb), "carve-up dominated by the rejection: " + why[k])
+    # path-sensitive: on every decision path that reaches the carve-up, the conditions taken imply each bound
+    # (whatever the spelling: `a > M || ..` early return, `let fits = a <= M && ..`, nested ifs)
+    paths = [(c_, r_, k_) for c_, r_, k_ in decision_paths(fn, with_calls=True) if any(x[0] == FIELDS_FROM for x in k_)]
+    if not paths:
+        raise Inconclusive("MatrixSlab::alloc: no decision path reaches fieds_from_ptr")
+    missing = {k: 0 for k in need}
+    for conds, res, calls in paths:
+        known = []
+        for cnd in conds:
+            r = relation_raw(cnd)
+            if r is None:
+                continue
+            x, y, st = r
+            known.append((poly_of(x, atomizer) - poly_of(y, atomizer), st))
+        for k, (lhs, rhs) in need.items():
+            d = lhs - rhs
+            okk = any((dd == d and st <= {"lt", "eq"}) or (dd == (rhs - lhs) and st <= {"gt", "eq"}) for dd, st in known)
+            if not okk:
+                missing[k] += 1
+    for k in need:
+        if missing[k] == 0:
+            ctx.ok(site(fn, cb), "on all %d path(s) to the carve-up: %s" % (len(paths), why[k]))
         else:
             ctx.violation("%s|guard|%s" % (ALLOC, k), site(fn, cb), "the unsafe carve-up of the slab is reachable without the check `%s`" % why[k])
-    # every raw deref of the views happens after the carve-up (trivially) and the copy uses haystack_.len()
+    # the copy into the haystack view uses the source slice and its own length
     cp = [(bi, t) for bi, t in fn.calls(lambda t: callee(t).endswith("copy_to_nonoverlapping"))]
     for bi, t in cp:
-        cnt = fn.expr_of_operand(t["args"][2])
+        cnt = poly_of(fn.expr_of_operand(t["args"][2]), atomizer)
         src = fn.expr_of_operand(t["args"][0])
-        if cnt[0] == "call" and str(cnt[1]).endswith("[T]>::len") and "haystack_" in show(cnt) and "haystack_" in show(src):
+        src_ok = any(x[0] == "arg" and x[1] == SL for x in walk(src))
+        if cnt == H and src_ok:
             ctx.ok(site(fn, bi), "haystack copied with its own length into the haystack view")
         else:
-            ctx.violation("%s|copy-len|1" % ALLOC, site(fn, bi), "copy into the slab uses count %s" % show(cnt))
+            ctx.violation("%s|copy-len|1" % ALLOC, site(fn, bi), "copy into the slab uses count %s" % cnt)
     # same layout type for allocation and deallocation of the slab
     nf = get_fn(facts, M, "matrix::MatrixSlab::new")
     df = get_fn(facts, M, "<matrix::MatrixSlab as std::ops::Drop>::drop")
